@@ -277,9 +277,14 @@ TARGETS['T11c'] = {'file': 'io.py', 'build': build_T11c}
 import glob as _glob
 import importlib as _importlib
 import os as _os
+BROKEN_FILES = {}   # a per-property target file that does not load must not take the other properties down
 for _f in sorted(_glob.glob(_os.path.join(_os.path.dirname(_os.path.abspath(__file__)), 'targets_C*.py'))):
-    _m = _importlib.import_module(_os.path.basename(_f)[:-3])
-    _importlib.reload(_m)
+    try:
+        _m = _importlib.import_module(_os.path.basename(_f)[:-3])
+        _importlib.reload(_m)
+    except Exception as _e:  # noqa: BLE001
+        BROKEN_FILES[_os.path.basename(_f)] = f'{type(_e).__name__}: {_e}'
+        continue
     for _k, _v in _m.TARGETS.items():
         if _k in TARGETS:
             raise RuntimeError(f'duplicate translation target {_k} in {_f}')
